@@ -116,7 +116,7 @@ Definition comp_of_ident (i : ident) : component := match i with IStr s => CStr 
 Definition empty_vars : vars :=
   {| v_major := None; v_minor := None; v_patch := None; v_epoch := None; v_pre := None; v_post := None; v_dev := None;
      v_distance := None; v_dirty := None; v_bumped_branch := None; v_bumped_hash := None; v_bumped_ts := None;
-     v_last_branch := None; v_last_hash := None; v_last_ts := None; v_last_tag := None; v_custom := JObj [] |}.
+     v_last_branch := None; v_last_hash := None; v_last_ts := None; v_last_tag := None; v_custom := JNull |}.
 
 (* SemVer::to_zerv_with_schema(semver_default) ; None = Err (and the expect() in From<SemVer> panics) *)
 Definition zerv_of_semver (v : semver) : option zerv :=
@@ -130,7 +130,7 @@ Definition zerv_of_semver (v : semver) : option zerv :=
                z_vars := {| v_major := Some (sv_major v); v_minor := Some (sv_minor v); v_patch := Some (sv_patch v);
                             v_epoch := ps_epoch st2; v_pre := ps_pre st2; v_post := ps_post st2; v_dev := ps_dev st2;
                             v_distance := None; v_dirty := None; v_bumped_branch := None; v_bumped_hash := None; v_bumped_ts := None;
-                            v_last_branch := None; v_last_hash := None; v_last_ts := None; v_last_tag := None; v_custom := JObj [] |} |}.
+                            v_last_branch := None; v_last_hash := None; v_last_ts := None; v_last_tag := None; v_custom := JNull |} |}.
 
 (* ---------------- PEP 440 -> Zerv ---------------- *)
 Definition comp_of_lseg (g : lseg) : component := match g with LStr s => CStr s | LUInt n => CUInt n end.
@@ -145,7 +145,7 @@ Definition zerv_of_pep (p : pep) : zerv :=
                   v_pre := match p_pre_label p with Some l => Some {| pr_label := l; pr_num := p_pre_num p |} | None => None end;
                   v_post := p_post_num p; v_dev := p_dev_num p;
                   v_distance := None; v_dirty := None; v_bumped_branch := None; v_bumped_hash := None; v_bumped_ts := None;
-                  v_last_branch := None; v_last_hash := None; v_last_ts := None; v_last_tag := None; v_custom := JObj [] |} |}.
+                  v_last_branch := None; v_last_hash := None; v_last_ts := None; v_last_tag := None; v_custom := JNull |} |}.
 
 (* ---------------- zerv render <version> -f <in> --output-format <out> ---------------- *)
 Inductive fmt := FSemver | FPep440 | FAuto.
